@@ -21,10 +21,13 @@ EXTENDS Integers, Sequences, FiniteSets, TLC, Json, IOUtils, SequencesExt
 
 CONSTANTS Size,          \* logical size named in the resource name
           MaxMsgs,       \* messages per script
-          ClosePipe      \* TRUE: the handler closes the pipe whenever it returns
+          ClosePipe,     \* TRUE: the handler closes the pipe whenever it returns
+          RejectEmpty    \* TRUE: a stream that ends before its first message is answered with an error
+                         \* (FALSE: the code before "fix: ByteStream.Write on a stream without messages":
+                         \* the receive loop reports a clean end, the handler waits for a Put nobody started)
 
 Msgs == [len : 0..2, finish : BOOLEAN, rename : BOOLEAN]
-Scripts == [msgs : UNION {[1..n -> Msgs] : n \in 1..MaxMsgs},
+Scripts == [msgs : UNION {[1..n -> Msgs] : n \in 0..MaxMsgs},
             name : {"ok", "empty", "unparsable"},
             offset : {0, 1},
             zstd : BOOLEAN,
@@ -33,8 +36,10 @@ Scripts == [msgs : UNION {[1..n -> Msgs] : n \in 1..MaxMsgs},
             ending : {"halfclose", "abort"}]
 WellFormedScript(s) ==
   /\ (~s.zstd => s.badAt = 0)
-  /\ ~s.msgs[1].rename           \* the first message names the resource
+  /\ (Len(s.msgs) > 0 => ~s.msgs[1].rename)   \* the first message names the resource
   /\ (s.name # "ok" => Len(s.msgs) = 1 /\ s.offset = 0 /\ ~s.exists /\ ~s.zstd)
+  \* the stream without any message: nothing of the rest is ever transmitted
+  /\ (Len(s.msgs) = 0 => s.name = "ok" /\ s.offset = 0 /\ ~s.exists /\ ~s.zstd)
 
 VARIABLES sc,        \* the script
           pos,       \* next message index
@@ -70,7 +75,11 @@ Recv ==
      ELSE IF pos > Len(sc.msgs)
      THEN \* io.EOF (half-close) or the client went away
           IF sc.ending = "abort" THEN RecvExit("err") /\ UNCHANGED <<pos, wlen, sent, started, ppc, putRes, first>>
-          ELSE /\ IF ~sc.zstd /\ sent # Size THEN RecvExit("err") ELSE RecvExit("eof")
+          ELSE /\ IF first
+                  THEN \* nothing was received: compression and size still have their zero values (identity, 0),
+                       \* so the "amount of data" test passes
+                       (IF RejectEmpty THEN RecvExit("err") ELSE RecvExit("eof"))
+                  ELSE IF ~sc.zstd /\ sent # Size THEN RecvExit("err") ELSE RecvExit("eof")
                /\ UNCHANGED <<pos, wlen, sent, started, ppc, putRes, first>>
      ELSE LET m == sc.msgs[pos] IN
           IF first
